@@ -11,7 +11,7 @@ class C12(Check):
     module = 'Xrl.Props.C12'
     namespace = 'Xrl.C12'
     functions = sorted(FNS)
-    assumptions = ['exact-arithmetic identities over the reals; floating-point cancellation in CS_KN below ~1e-2 keV is measured (evidence: max_rel_dev_spec_lowE), not proved',
+    assumptions = ['exact-arithmetic identities over the reals; the floating-point cancellation of CS_KN at low energy is a KNOWN FINDING (known_findings.txt), classified by the envelope 64 eps/a^3',
                    'the generated CS_KN carries the double literal 3.141592653589793 for PI; cs_kn_is_integral is stated with the factor pi/PI_lit and |pi/PI_lit - 1| < 1e-15 is proved']
 
     def grid(self, ctx):
@@ -45,24 +45,91 @@ class C12(Check):
         try: e = ctx.run_model(slines)
         except core.BuildError: return 0, [], {'rule': 'specification driver unavailable'}
         viol = []; stats = {}; low = 0.0; nontriv = set()
+        MEC2 = 510.998928; EPS = 2.220446049250313e-16
+        K_CANCEL = 'scattering.c:241 CS_KN cancellation at low energy'
+        def cancellation(E, d):
+            """the closed form of CS_KN subtracts O(1) terms to get an O(a^2) bracket and divides by a^3 (a = E/mc2): rounding alone explains a
+            relative error up to ~eps/a^3.  A deviation inside that envelope at a < 0.02 is the known defect; anything larger is new."""
+            a = E / MEC2
+            return a < 0.02 and d <= 64 * EPS / a ** 3
         for (fn, args), cl, co, eo in zip(g, clines, c, e):
             if eo.startswith('value'): nontriv.add(cl)
-            if fn == 'CS_KN' and 0 < args[0] < 1e-2 and eo.startswith('value'):
-                pc = core.parse_answer(co)
-                if pc['kind'] == 'ok' and pc['slot'] == 'E':
-                    v = unhx(eo.split(' ')[1]); a = pc['vals'][0]
-                    if v != 0: low = max(low, abs(a - v) / abs(v))
-                    continue
-            if not core.expect_agrees(co, eo, rel=1e-9, stats=stats):
-                viol.append(dict(key=cl, got=co, expected=eo, what='closed form: library vs textbook formula'))
-            # physical bounds stated by the property, checked directly on the library's numbers
             pc = core.parse_answer(co)
+            if not core.expect_agrees(co, eo, rel=1e-9, stats=stats):
+                key = cl
+                if fn == 'CS_KN' and eo.startswith('value') and pc['kind'] == 'ok' and pc['slot'] == 'E' and math.isfinite(pc['vals'][0]):
+                    v = unhx(eo.split(' ')[1]); d = abs(pc['vals'][0] - v) / abs(v) if v else float('inf')
+                    low = max(low, d)
+                    if cancellation(args[0], d): key = K_CANCEL
+                viol.append(dict(key=key, got=co, expected=eo, what='closed form: library vs textbook formula (%s)' % cl))
+            # physical bounds stated by the property, checked directly on the library's numbers
             if pc['kind'] == 'ok' and pc['slot'] == 'E' and fn in ('DCS_Thoms', 'DCS_KN', 'CS_KN', 'ComptonEnergy'):
-                if not (pc['vals'][0] > 0 and math.isfinite(pc['vals'][0])) and not (fn == 'CS_KN' and args[0] < 1e-2) and args[0] < 1e290:
-                    viol.append(dict(key=cl, got=co, expected='finite and > 0', what='positivity/finiteness'))
+                if not (pc['vals'][0] > 0 and math.isfinite(pc['vals'][0])) and args[0] < 1e290:
+                    key = K_CANCEL if (fn == 'CS_KN' and args[0] / MEC2 < 1e-4) else cl       # below a ~ 1e-4 the envelope eps/a^3 exceeds 1: any sign is rounding
+                    viol.append(dict(key=key, got=co, expected='finite and > 0', what='positivity/finiteness (%s)' % cl))
+        # ---- the integral clauses by numerical quadrature over the LIBRARY's own differential forms (independent of the closed-form spec):
+        #      CS_KN(E) = 2 pi * int_0^pi DCS_KN(E, t) sin t dt   (composite 11 x 16-point Gauss-Legendre);  DCS_KN(E, t) = mean over phi of DCSP_KN(E, t, phi)
+        #      (16-point periodic trapezoid: exact for the cos^2(phi) dependence);  CS_KN <= Thomson total and -> Thomson as E -> 0
+        def gauss_legendre(n):
+            xs = []; ws = []
+            for i in range(1, n + 1):
+                x = math.cos(math.pi * (i - 0.25) / (n + 0.5))
+                for _ in range(100):
+                    p0, p1 = 1.0, x
+                    for k in range(2, n + 1): p0, p1 = p1, ((2 * k - 1) * x * p1 - (k - 1) * p0) / k
+                    dp = n * (x * p1 - p0) / (x * x - 1); dx = p1 / dp; x -= dx
+                    if abs(dx) < 1e-16: break
+                xs.append(x); ws.append(2 / ((1 - x * x) * dp * dp))
+            return xs, ws
+        gx0, gw0 = gauss_legendre(16)
+        # composite rule: the differential form is forward-peaked with width ~ mc2/E, so the panels are geometric towards theta = 0
+        brk = [0.0] + [10.0 ** k for k in range(-7, 0)] + [0.3, 1.0, 2.0, math.pi]
+        gx = []; gw = []        # nodes as angles, weights incl. the panel half-width
+        for lo_, hi_ in zip(brk, brk[1:]):
+            for x, w in zip(gx0, gw0):
+                gx.append(0.5 * (hi_ - lo_) * x + 0.5 * (hi_ + lo_)); gw.append(0.5 * (hi_ - lo_) * w)
+        Es = sorted({a_[0] for f_, a_ in g if f_ == 'CS_KN' and a_[0] > 0})
+        ql = ['DCS_KN %s %s E' % (hx(E_), hx(x)) for E_ in Es for x in gx]
+        qa = dict(zip(ql, ctx.run_c(ql)))
+        THOMSON = 8 * math.pi / 3 * 0.079407877      # 8 pi/3 r_e^2 in barn
+        ck = {cl_: co_ for cl_, co_ in zip(clines, c)}
+        nq = 0
+        for E_ in Es:
+            vals_ = [core.parse_answer(qa['DCS_KN %s %s E' % (hx(E_), hx(x))]) for x in gx]
+            if any(p_['kind'] != 'ok' or p_['slot'] != 'E' for p_ in vals_): continue
+            integ = 2 * math.pi * math.fsum(w * p_['vals'][0] * math.sin(x) for x, w, p_ in zip(gx, gw, vals_))
+            pc = core.parse_answer(ck['CS_KN %s E' % hx(E_)]); nq += 1
+            if pc['kind'] != 'ok' or pc['slot'] != 'E': continue
+            got = pc['vals'][0]
+            d = abs(got - integ) / integ
+            if d > 1e-9:
+                viol.append(dict(key=K_CANCEL if cancellation(E_, d) else 'CS_KN %s E' % hx(E_), got=repr(got), expected='%r = 2 pi int DCS_KN sin(theta) d theta (64-point Gauss-Legendre over the library\'s DCS_KN)' % integ,
+                                 what='Klein-Nishina total vs the solid-angle integral of its differential form (CS_KN %s E)' % hx(E_)))
+            elif got > THOMSON * (1 + 1e-9):
+                viol.append(dict(key='CS_KN %s E' % hx(E_), got=repr(got), expected='<= Thomson total %r' % THOMSON, what='Klein-Nishina total exceeds the Thomson total'))
+            if E_ <= 1e-5 and abs(integ - THOMSON) / THOMSON > 1e-6:
+                viol.append(dict(key='DCS_KN at %r keV' % E_, got=repr(integ), expected='-> Thomson total %r as E -> 0' % THOMSON, what='low-energy limit of the integrated differential form'))
+        # azimuthal average
+        pts = [(E_, t_) for E_ in Es[::4] for t_ in (0.3, 1.234, math.pi / 2, 2.5, -0.7)]
+        al = ['DCSP_KN %s %s %s E' % (hx(E_), hx(t_), hx(2 * math.pi * k / 16)) for E_, t_ in pts for k in range(16)] + ['DCS_KN %s %s E' % (hx(E_), hx(t_)) for E_, t_ in pts]
+        aa = dict(zip(al, ctx.run_c(al)))
+        for E_, t_ in pts:
+            ps_ = [core.parse_answer(aa['DCSP_KN %s %s %s E' % (hx(E_), hx(t_), hx(2 * math.pi * k / 16))]) for k in range(16)]
+            pu = core.parse_answer(aa['DCS_KN %s %s E' % (hx(E_), hx(t_))]); nq += 1
+            if any(p_['kind'] != 'ok' or p_['slot'] != 'E' for p_ in ps_ + [pu]): continue
+            mean = sum(p_['vals'][0] for p_ in ps_) / 16
+            if abs(mean - pu['vals'][0]) > 1e-10 * abs(pu['vals'][0]):
+                viol.append(dict(key='DCS_KN %s %s E' % (hx(E_), hx(t_)), got=repr(pu['vals'][0]), expected='%r = azimuthal mean of DCSP_KN' % mean, what='unpolarised differential cross section vs the azimuthal average of the polarised one'))
+        # de-duplicate the class-keyed known finding
+        seen_ = set(); out_ = []
+        for v in viol:
+            if v['key'] == K_CANCEL and K_CANCEL in seen_: continue
+            seen_.add(v['key']); out_.append(v)
+        viol = out_
+        stats['quadrature_cases'] = nq
         stats.update(rule='7 closed-form functions x energies log-spaced 1e-6..1e6 keV (+0, negatives) x theta/phi grids incl. 0, pi/2, pi, negative, > 2pi and seeded angles; '
                           'non-trivial = distinct calls with a value expected', distinct_nontrivial=len(nontriv), max_rel_dev_spec_lowE_CS_KN=low,
                      samples=[dict(call=clines[i], impl=c[i], expected=e[i]) for i in (0, len(g) // 2, len(g) - 1)])
-        return len(g), viol, stats
+        return len(g) + nq, viol, stats
 
 CHECK = C12()
